@@ -55,6 +55,10 @@ func newBlock(c *vlib.Ctx, r rmk, n int, bb sdf.Box2, wx, wy int) *block {
 		neutral = 0
 	}
 	l, err := lattice.Discover2(r.mk(n), bb, neutral)
+	if ce, ok := err.(*lattice.CoverageError); ok {
+		c.Violation(r.name+"|sampled-area-does-not-cover-bounding-box|cell-never-visited", ce.Msg, map[string]any{"renderer": r.name, "unvisited_corner": ce.Corner})
+		return nil
+	}
 	if err != nil {
 		c.HarnessError("discover %s n=%d: %v", r.name, n, err)
 		return nil
@@ -247,6 +251,10 @@ func main() {
 				neutral = 0
 			}
 			l, err := lattice.Discover2(r.mk(cfgn.n), cfgn.bb, neutral)
+			if ce, ok := err.(*lattice.CoverageError); ok {
+				c.Violation(r.name+"|sampled-area-does-not-cover-bounding-box|cell-never-visited", ce.Msg, map[string]any{"renderer": r.name, "unvisited_corner": ce.Corner})
+				continue
+			}
 			if err != nil {
 				c.HarnessError("discover: %v", err)
 				continue
@@ -400,6 +408,10 @@ func main() {
 			neutral = 0
 		}
 		l, err := lattice.Discover2(j.r.mk(j.n), j.bb, neutral)
+		if ce, ok := err.(*lattice.CoverageError); ok {
+			c.Violation(j.r.name+"|sampled-area-does-not-cover-bounding-box|cell-never-visited", ce.Msg, map[string]any{"renderer": j.r.name, "unvisited_corner": ce.Corner})
+			return
+		}
 		if err != nil {
 			c.HarnessError("discover (%s n=%d %s): %v", j.name, j.n, j.r.name, err)
 			return
